@@ -52,7 +52,7 @@ def framing (method : Bytes) (r : Res) : Framing :=
 inductive Outcome where
   | waiting
   | error (rv : Nat)
-  | ok (status : Nat) (body : Bytes) (used : Nat)
+  | ok (status : Nat) (body : Bytes) (used : Nat) (vers : Bytes)   -- vers: the version the response carried
 deriving Repr, DecidableEq
 
 def transact (p : Params) (method : Bytes) (s : Bytes) : Outcome :=
@@ -63,20 +63,22 @@ def transact (p : Params) (method : Bytes) (s : Bytes) : Outcome :=
     let st := if r.status ≠ 0 then r.status else 200
     let rest := s.drop n
     match framing method r with
-    | .none => .ok st [] n
-    | .length k => if rest.length < k then .waiting else .ok st (rest.take k) (n + k)
+    | .none => .ok st [] n r.vers
+    | .length k => if rest.length < k then .waiting else .ok st (rest.take k) (n + k) r.vers
     | .chunked =>
       let c := ChunkSpec.decode 0 (2 ^ 40) rest
       match c.outcome with
-      | .done => .ok st c.chunks.flatten (n + c.consumed)
+      | .done => .ok st c.chunks.flatten (n + c.consumed) r.vers
       | .more => .waiting
       | .malformed => .error eProto
       | .tooBig => .error eMsgSize
       | .noMem => .error Err.enomem
 
-/-- the request a transaction writes: request line, Host, Content-Length when there is a body (any order of headers) -/
-def request (method uri host body : Bytes) : Bytes :=
-  method ++ [SP] ++ (if uri.isEmpty then sSlash else uri) ++ [SP] ++ str "HTTP/1.1" ++ [CR, LF] ++
+/-- the request a transaction writes: request line, Host, Content-Length when there is a body (any order of headers).
+    `vers`: HTTP/1.1 for a fresh request; a request the application keeps across transactions (no nng_http_reset) is
+    written with the version of the last response — the connection object has one version field (observation). -/
+def request (method uri host vers body : Bytes) : Bytes :=
+  method ++ [SP] ++ (if uri.isEmpty then sSlash else uri) ++ [SP] ++ vers ++ [CR, LF] ++
     (if host.isEmpty then [] else sHost ++ [COLON, SP] ++ host ++ [CR, LF]) ++
     (if body.isEmpty then [] else sContentLength ++ [COLON, SP] ++ dec body.length ++ [CR, LF]) ++ [CR, LF] ++ body
 
